@@ -356,8 +356,18 @@ pub fn guarded<R>(f: impl FnOnce() -> R) -> Result<R, String> {
 }
 
 /// Child-side: run all configurations in order, logging each.
-pub fn run_all(code: &str, input: &[u8], bits: u32, cfgs: &[RunCfg], event_cap: usize) {
+pub fn run_all(code: &str, input: &[u8], bits: u32, cfgs: &[RunCfg], event_cap: usize, per_cfg_ms: u64) {
+    if cfgs.iter().any(|c| c.alloc.fail_any_at.is_some() || c.alloc.fail_zeroed_at.is_some()) {
+        // the expected end is the allocation-failure abort, which prints to stderr
+        unsafe {
+            let fd = libc::open(b"/dev/null\0".as_ptr() as *const libc::c_char, libc::O_WRONLY);
+            if fd >= 0 {
+                libc::dup2(fd, 2);
+            }
+        }
+    }
     for (i, cfg) in cfgs.iter().enumerate() {
+        child::arm_watchdog(per_cfg_ms);
         child::EVENT_CAP.store(event_cap, std::sync::atomic::Ordering::SeqCst);
         child::log_begin(i);
         match guarded(|| with_cell!(bits, C, run_c::<C>(code, input, cfg))) {
